@@ -99,8 +99,14 @@ def check_values(rnd, before, after, n_env=8):
         exact = not has_float(before) and not has_float(after)
         for env in envs:
             try:
-                hb = P.equation_holds(before, env, exact)
-                ha = P.equation_holds(after, env, exact)
+                # the tuple forms are exact rationals: compare the exact truth values first; only when those differ (a fold that
+                # rounded a float) does the tolerant comparison decide - tolerance alone mistakes ill-conditioned rearrangements
+                # (x / 2^40, eps - 1 = -1) for changes of the solution set
+                hb = P.equation_holds(before, env, True)
+                ha = P.equation_holds(after, env, True)
+                if hb != ha and not exact:
+                    hb = P.equation_holds(before, env, False)
+                    ha = P.equation_holds(after, env, False)
             except (P.Undefined, P.Irrational, OverflowError):
                 continue
             checked += 1
